@@ -187,7 +187,7 @@ CHECKS["C18"] = dict(
     design="§4 C18", note=NOTE_BASE + " Uninitialised reads, alignment, integer/shift UB inside the C++ and stack VLAs are outside every model (observed by UBSan/ASan only; no MSan).")
 
 CHECKS["C12"] = dict(
-    text=("PARTIAL BY NATURE. Machine-checked (Props/C12.lean, 56 theorems; Lemmas/Bernstein.lean, NttPar*.lean, MerklePar.lean): "
+    text=("PARTIAL BY NATURE. Machine-checked (Props/C12.lean, 57 theorems; Lemmas/Bernstein.lean, NttPar*.lean, MerklePar.lean): "
           "(1) generic theorem — iterations whose read/write footprints satisfy Bernstein's conditions pairwise can be executed in ANY "
           "order (any assignment to team members, any team size below/at/above the iteration count, any order of members) with the same "
           "final memory; (2) Bernstein's conditions, for ALL shapes, for the footprints of all 20 `omp parallel for` loops (NTT butterfly "
@@ -199,10 +199,10 @@ CHECKS["C12"] = dict(
           "calls with arbitrary per-pass, per-block orders (C12_model_*_any_order); Merkle: node dependency of the functional model and "
           "order independence of an imperative rendering of the tree loops; (4) parcpy/parSetZero end to end for every chunk order (C17); "
           "(5) for the GENERATED lifted loop bodies (translated from the source on every run: NTT butterfly batches, scatter, the four "
-          "reversal loops, parcpy chunks, Merkle leaf and level loops of all builders) folding the body over ANY permutation of the "
+          "reversal loops, parcpy and parSetZero chunks, Merkle leaf and level loops of all builders) folding the body over ANY permutation of the "
           "iteration indices equals the generated sequential loop and returns (C12_generated_*_any_order): the footprints are no longer "
           "only hand-written. NOT proved: that the COMPILED loop bodies access exactly these footprints. That is checked/observed on every run: "
-          "fingerprint of every parallel loop statement of the current source against the text the footprints were written from, no "
+          "fingerprint of every parallel loop statement of the current source against the text the footprints were written from (for the parcpy and parSetZero loops a changed text is accepted when the any-order theorem about the regenerated loop is re-proved and the sequence of OpenMP pragmas is unchanged), no "
           "OpenMP construct outside `parallel for`+static schedule; ThreadSanitizer over a pthread stand-in for the OpenMP runtime; "
           "controlled sequential execution of team members in permuted orders, team sizes 1,2,3,5,8,64 and a runtime granting fewer "
           "members than requested, outputs bit-identical to the one-member run; real libgomp teams of 1,2,3,5,16."),
@@ -218,12 +218,12 @@ CHECKS["C17"] = dict(
           "value; (2) Props/C17.lean — frame condition (nothing else written), value of each designated position at field level "
           "through the kernel theorems of C01/C02/C11, set/load/store; (3) parcpy/parSetZero transfer exactly size elements for "
           "every size, every int thread count (<= 0 included) and every execution order of the chunks (hand model "
-          "Model/ParCopy.lean). Tie: bodies regenerated from the source; correspondence of every overload (implementation vs "
+          "Model/ParCopy.lean; both functions are also translated from the source and bridged: C17_generated_parcpy, C17_generated_parSetZero). Tie: bodies regenerated from the source; correspondence of every overload (implementation vs "
           "generated model vs signature-derived oracle) with exact-extent arrays against PROT_NONE guard pages, including call "
           "patterns in which the broadcast scalar is an element of the result array itself (f(out, out[j], ...): the designated "
           "scalar is the value at the call)."),
     technique="Lean 4 proof, statements generated from C++ signatures and bodies translated from the source (clang AST) + CPU correspondence",
-    design="§4 C17", note=NOTE_BASE + " Distinct pointer arguments are modelled as disjoint regions (aliasing of pointer arguments not covered; a scalar taken from the result array is exercised, not proved); parcpy is also translated and bridged (C17_generated_parcpy).")
+    design="§4 C17", note=NOTE_BASE + " Distinct pointer arguments are modelled as disjoint regions (aliasing of pointer arguments not covered; a scalar taken from the result array is exercised, not proved); parcpy and parSetZero are also translated and bridged.")
 CHECKS["C08"] = dict(
     text=("Machine-checked theorems (Props/C08.lean) about the Merkle model (leaf digests, then level by level the hashes of adjacent "
           "digest pairs), generic in leaf and node hash: for every power-of-two row count incl. one the buffer size equals the "
